@@ -4,7 +4,8 @@ package harness
 
 // Suite C06: one generated block history executed on four instances of the real application
 // (A plain, B re-created from its database at every block boundary, C with read-only requests
-// interleaved, D a second quiet node run afterwards in a fresh application), compared at every height;
+// interleaved, D a second quiet node run afterwards in a fresh application; in half of the cases a fifth, E,
+// restarted exactly once at a random boundary), compared at every height;
 // the projection (read on C, so that A and D see nothing but blocks) is compared with the node model
 // of coq/Model/Chain.v.
 
@@ -31,6 +32,7 @@ import (
 	coinswaptypes "github.com/Canto-Network/Canto/v8/x/coinswap/types"
 	csrtypes "github.com/Canto-Network/Canto/v8/x/csr/types"
 	erc20types "github.com/Canto-Network/Canto/v8/x/erc20/types"
+	govshuttletypes "github.com/Canto-Network/Canto/v8/x/govshuttle/types"
 	inflationtypes "github.com/Canto-Network/Canto/v8/x/inflation/types"
 )
 
@@ -38,7 +40,8 @@ func init() { runners["C06"] = c06Run }
 
 // ---- replay format ----
 type c06Update struct {
-	Module   string    `json:"module"` // coinswap | inflation | csr | erc20
+	Module   string    `json:"module"`          // coinswap | inflation | csr | erc20 | lending (govshuttle) | register-coin (erc20)
+	Denom    int       `json:"denom,omitempty"` // register-coin: index into the coinswap token names
 	Coinswap *csParams `json:"coinswap,omitempty"`
 	Enable   bool      `json:"enable"`
 	Staking  string    `json:"staking,omitempty"`   // inflation: staking share (raw dec)
@@ -68,16 +71,19 @@ type c06Block struct {
 }
 
 type c06Case struct {
-	Gen    c06Gen     `json:"gen"`
-	Blocks []c06Block `json:"blocks"`
+	Gen c06Gen `json:"gen"`
+	// RestartOnce: 0 = no replica E; k > 0 = a fifth replica E that is restarted from its database exactly once,
+	// after the k-th block of the history (state built up in memory over several blocks is lost only then)
+	RestartOnce int        `json:"restart_once"`
+	Blocks      []c06Block `json:"blocks"`
 }
 
 // per-block record kept until replica D has run
 type c06Rec struct {
 	blkTerm  string
 	height   int64
-	hash     [4]string
-	results  [4][]string
+	hash     []string // A B C (E) D
+	results  [][]string
 	exports  []string
 	codes    []string
 	postTerm string
@@ -119,12 +125,19 @@ func c06GenGenesis(e *Env, w *csWorld) c06Gen {
 		g.InflIdent = "week"
 	}
 	g.CsrShare = []string{"200000000000000000", "0", csS18.String(), "500000000000000000", e.Below(csS18).String()}[e.Pick(5)]
+	g.CsrLate = e.Chance(0.34)
 	return g
 }
 
 func c06GenUpdate(e *Env, w *csWorld, o c06Obs) *c06Update {
 	u := &c06Update{}
-	switch e.Pick(4) {
+	switch e.Pick(6) {
+	case 4: // govshuttle: the first one deploys the ProposalStore ("port") contract inside the EndBlocker
+		u.Module = "lending"
+		u.Enable = e.Chance(0.85) // false: array lengths differ -> the proposal fails when executed
+	case 5: // erc20: RegisterCoin deploys an ERC20 contract inside the EndBlocker; a second one for the same coin fails
+		u.Module = "register-coin"
+		u.Denom = e.Pick(3)
 	case 0:
 		u.Module = "coinswap"
 		np := e.csGenParams(w, csTypicalFund(o.swap))
@@ -157,12 +170,23 @@ func c06GenUpdate(e *Env, w *csWorld, o c06Obs) *c06Update {
 	return u
 }
 
-// the message of an update with the given authority, and its model term
-func c06UpdateMsg(w *c06World, cur c06Obs, u *c06Update, authority string) (sdk.Msg, string) {
+// the message of an update with the given authority, and its model term (for the privileged handlers
+// the keeper function's own success is an oracle input: known when the proposal has been executed)
+func c06UpdateMsg(w *c06World, cur c06Obs, u *c06Update, authority string) (sdk.Msg, func(executedOK bool) string) {
 	auth := c06Str(authority)
+	konst := func(t string) func(bool) string { return func(bool) string { return t } }
+	priv := func(kind string) func(bool) string {
+		return func(ok bool) string {
+			inner := "(fun _ => None)"
+			if ok {
+				inner = "(fun _ => Some tt)"
+			}
+			return App("PUAuth", App("Authority.Priv", kind, auth, inner))
+		}
+	}
 	switch u.Module {
 	case "coinswap":
-		return &coinswaptypes.MsgUpdateParams{Authority: authority, Params: w.cs.toParams(*u.Coinswap)}, App("PUSwap", csParamsTerm(*u.Coinswap))
+		return &coinswaptypes.MsgUpdateParams{Authority: authority, Params: w.cs.toParams(*u.Coinswap)}, konst(App("PUSwap", csParamsTerm(*u.Coinswap)))
 	case "inflation":
 		p := cur.infl.params
 		p.EnableInflation = u.Enable
@@ -172,20 +196,33 @@ func c06UpdateMsg(w *c06World, cur c06Obs, u *c06Update, authority string) (sdk.
 		t := App("PUAuth", App("Authority.UpdInflation", auth, "false",
 			App("Authority.mkInf", c06Str(p.MintDenom), Z(ex.A.BigInt()), Z(ex.R.BigInt()), Z(ex.C.BigInt()), Z(ex.BondingTarget.BigInt()), Z(ex.MaxVariance.BigInt()),
 				Z(bigOf(u.Staking)), Z(bigOf(u.Commun)), B(u.Enable))))
-		return &inflationtypes.MsgUpdateParams{Authority: authority, Params: p}, t
+		return &inflationtypes.MsgUpdateParams{Authority: authority, Params: p}, konst(t)
 	case "csr":
 		t := App("PUAuth", App("Authority.UpdCsr", auth, "false", App("Authority.mkCsr", B(u.Enable), Z(bigOf(u.Share)))))
-		return &csrtypes.MsgUpdateParams{Authority: authority, Params: csrtypes.Params{EnableCsr: u.Enable, CsrShares: c06DecOf(u.Share)}}, t
+		return &csrtypes.MsgUpdateParams{Authority: authority, Params: csrtypes.Params{EnableCsr: u.Enable, CsrShares: c06DecOf(u.Share)}}, konst(t)
+	case "lending":
+		md := &govshuttletypes.LendingMarketMetadata{Account: []string{c06Eth(w.keys.users[0]).Hex()}, PropId: 0, Values: []uint64{1},
+			Calldatas: []string{"abcd"}, Signatures: []string{"f()"}}
+		if !u.Enable {
+			md.Values = []uint64{1, 2}
+		}
+		return &govshuttletypes.MsgLendingMarketProposal{Authority: authority, Title: "lending market", Description: "verif", Metadata: md}, priv("Authority.LendingMarket")
+	case "register-coin":
+		d := csTokNames[u.Denom%3]
+		disp := fmt.Sprintf("disp%d", u.Denom%3)
+		meta := banktypes.Metadata{Description: "registered by governance", Base: d, Name: d, Symbol: fmt.Sprintf("REG%d", u.Denom%3), Display: disp,
+			DenomUnits: []*banktypes.DenomUnit{{Denom: d, Exponent: 0}, {Denom: disp, Exponent: 18}}}
+		return &erc20types.MsgRegisterCoin{Authority: authority, Title: "register coin", Description: "verif", Metadata: meta}, priv("Authority.RegisterCoin")
 	default:
 		t := App("PUAuth", App("Authority.UpdErc20", auth, App("Authority.mkErc", B(u.Enable), B(u.Hook))))
-		return &erc20types.MsgUpdateParams{Authority: authority, Params: erc20types.NewParams(u.Enable, u.Hook)}, t
+		return &erc20types.MsgUpdateParams{Authority: authority, Params: erc20types.NewParams(u.Enable, u.Hook)}, konst(t)
 	}
 }
 
 // a pending proposal of the history
 type c06Pending struct {
 	id   uint64
-	term string
+	term func(executedOK bool) string
 }
 
 type c06Run1 struct {
@@ -334,7 +371,7 @@ func (r *c06Run1) build(ctx sdk.Context, t *c06Tx, blockTime time.Time) c06Built
 	case "params-user": // MsgUpdateParams signed by a user naming itself as authority
 		msg, uterm := c06UpdateMsg(w, r.obs, t.Upd, c06Acc(user).String())
 		bz, addr := sign(t.User, msg)
-		term := App("TxParams", c06Str(c06Acc(user).String()), uterm)
+		term := App("TxParams", c06Str(c06Acc(user).String()), uterm(true))
 		return c06Built{bz: bz, kind: t.Kind, term: func(*abci.ExecTxResult) string { return term }, signer: addr}
 	case "badseq": // a correctly signed bank transfer with a sequence number from the future
 		addr := c06Acc(user)
@@ -359,7 +396,11 @@ func (r *c06Run1) build(ctx sdk.Context, t *c06Tx, blockTime time.Time) c06Built
 		var err error
 		eabi := contracts.ERC20MinterBurnerDecimalsContract.ABI
 		var created *common.Address
-		switch t.Kind {
+		ekind := t.Kind
+		if ekind == "evm-csr0" && w.csr0 == (common.Address{}) {
+			ekind = "evm-selfreg" // no prepared CSR contract on this chain: register a fresh contract instead
+		}
+		switch ekind {
 		case "evm-erc20", "evm-erc20-user":
 			c := w.pairCoin
 			if t.Target%2 == 1 {
@@ -380,7 +421,7 @@ func (r *c06Run1) build(ctx sdk.Context, t *c06Tx, blockTime time.Time) c06Built
 				c := w.selfReg[t.Target%len(w.selfReg)]
 				to = &c
 			} else {
-				c := w.csr0
+				c := w.csr0 // the zero address on a chain without prepared CSR contract: a plain call of an empty account
 				to = &c
 			}
 		case "evm-csr0":
@@ -504,6 +545,9 @@ func (r *c06Run1) genTx(dry sdk.Context, blockTime time.Time) c06Tx {
 			break
 		}
 		x -= wt.n
+	}
+	if w.turnstile == (common.Address{}) && (kind == "evm-selfreg" || kind == "evm-call" || kind == "evm-csr0") {
+		kind = "evm-erc20" // no Turnstile yet (CSR is enabled later by governance)
 	}
 	t := c06Tx{Kind: kind, User: e.Pick(csUsers), Target: e.Pick(16)}
 	switch kind {
@@ -640,16 +684,34 @@ func c06RunCase(e *Env, c int, kase *c06Case, replay bool) {
 	RB, _ := c06Start("B", keys, kase.Gen)
 	C, w := c06Start("C", keys, kase.Gen) // the naming tables are bound to the replica that is read: C
 	r := &c06Run1{e: e, c: c, w: w, A: A, B: RB, C: C, keys: keys, voted: map[uint64]bool{}}
+	if kase.Gen.CsrLate {
+		e.Stats.Count("case:csr-enabled-late")
+	}
 	// block 1: empty, a few seconds after genesis (commits the prepared state everywhere)
 	r.now = GenesisTime.Add(5 * time.Second)
 	req1 := r.request(1, r.now, nil)
 	var reqs []*abci.RequestFinalizeBlock
 	reqs = append(reqs, req1)
-	h1 := [3]string{}
-	for i, rep := range []*c06Replica{A, RB, C} {
-		h1[i] = fmt.Sprintf("%x", rep.block(req1).AppHash)
+	nBlocks := 14 + e.Pick(e.Scale(14, 40))
+	if replay {
+		nBlocks = len(kase.Blocks)
+	} else if e.Chance(0.5) && nBlocks > 3 {
+		kase.RestartOnce = 2 + e.Pick(nBlocks-2)
 	}
-	if h1[0] != h1[1] || h1[0] != h1[2] {
+	var E *c06Replica
+	first := []*c06Replica{A, RB, C}
+	if kase.RestartOnce > 0 {
+		E, _ = c06Start("E", keys, kase.Gen)
+		first = append(first, E)
+		e.Stats.Count("case:replica-E-restarted-once")
+	}
+	h1 := make([]string, len(first))
+	same1 := true
+	for i, rep := range first {
+		h1[i] = fmt.Sprintf("%x", rep.block(req1).AppHash)
+		same1 = same1 && h1[i] == h1[0]
+	}
+	if !same1 {
 		e.Stats.ImplFailures = append(e.Stats.ImplFailures, ImplFailure{Case: c, Step: -1, Monitor: "apphash-differs-between-replicas", Detail: "after the first (empty) block"})
 	}
 	RB.restart()
@@ -658,10 +720,6 @@ func c06RunCase(e *Env, c int, kase *c06Case, replay bool) {
 	t0 := r.now
 	rank := c06EpochRank(r.obs.epochs)
 
-	nBlocks := 14 + e.Pick(e.Scale(14, 40))
-	if replay {
-		nBlocks = len(kase.Blocks)
-	}
 	for bi := 0; bi < nBlocks; bi++ {
 		height := A.app.LastBlockHeight() + 1
 		var blk c06Block
@@ -684,12 +742,26 @@ func c06RunCase(e *Env, c int, kase *c06Case, replay bool) {
 		}
 		var built []c06Built
 		var txs [][]byte
+		var forced []c06Tx
+		if !replay && kase.Gen.CsrLate {
+			switch bi {
+			case 0: // governance switches CSR on; csr's BeginBlock then deploys the Turnstile inside a block
+				forced = append(forced, c06Tx{Kind: "gov-submit", Upd: &c06Update{Module: "csr", Enable: true, Share: kase.Gen.CsrShare}})
+			case 1:
+				forced = append(forced, c06Tx{Kind: "gov-vote"})
+			}
+			nTx += len(forced)
+		}
 		for ti := 0; ti < nTx; ti++ {
 			var t c06Tx
 			if replay {
 				t = blk.Txs[ti]
 			} else {
-				t = r.genTx(ctx, r.now)
+				if ti < len(forced) {
+					t = forced[ti]
+				} else {
+					t = r.genTx(ctx, r.now)
+				}
 				blk.Txs = append(blk.Txs, t)
 			}
 			b := r.build(ctx, &t, r.now)
@@ -709,6 +781,15 @@ func c06RunCase(e *Env, c int, kase *c06Case, replay bool) {
 		resA := A.block(req)
 		resB := RB.block(req)
 		resC := C.block(req)
+		var resE *abci.ResponseFinalizeBlock
+		if E != nil {
+			resE = E.block(req)
+			e.Stats.Evaluations++
+			if bi+1 == kase.RestartOnce {
+				E.restart()
+				e.Stats.Count("restart-once")
+			}
+		}
 		RB.restart()
 		if RB.app.LastBlockHeight() != height {
 			e.Stats.ImplFailures = append(e.Stats.ImplFailures, ImplFailure{Case: c, Step: bi, Monitor: "restart-lost-height",
@@ -716,10 +797,17 @@ func c06RunCase(e *Env, c int, kase *c06Case, replay bool) {
 		}
 		e.Stats.Evaluations += 3
 		rec := c06Rec{height: height, req: req}
-		rec.hash = [4]string{fmt.Sprintf("%x", resA.AppHash), fmt.Sprintf("%x", resB.AppHash), fmt.Sprintf("%x", resC.AppHash), ""}
-		rec.results = [4][]string{c06ResultKeys(resA), c06ResultKeys(resB), c06ResultKeys(resC), nil}
+		rec.hash = []string{fmt.Sprintf("%x", resA.AppHash), fmt.Sprintf("%x", resB.AppHash), fmt.Sprintf("%x", resC.AppHash)}
+		rec.results = [][]string{c06ResultKeys(resA), c06ResultKeys(resB), c06ResultKeys(resC)}
+		if E != nil {
+			rec.hash = append(rec.hash, fmt.Sprintf("%x", resE.AppHash))
+			rec.results = append(rec.results, c06ResultKeys(resE))
+		}
 		if blk.Export || bi == nBlocks-1 {
 			rec.exports = []string{A.exportHash(), RB.exportHash(), C.exportHash()}
+			if E != nil {
+				rec.exports = append(rec.exports, E.exportHash())
+			}
 			e.Stats.Count("export-compared")
 		}
 		r.postCtx = C.readCtx(r.now, w)
@@ -750,7 +838,7 @@ func c06RunCase(e *Env, c int, kase *c06Case, replay bool) {
 			switch {
 			case after == govv1.StatusPassed || after == govv1.StatusFailed:
 				if before != after {
-					govTerms = append(govTerms, p.term)
+					govTerms = append(govTerms, p.term(after == govv1.StatusPassed))
 					e.Stats.Count("gov-executed:" + after.String())
 				}
 			case after == govv1.StatusRejected:
@@ -775,12 +863,23 @@ func c06RunCase(e *Env, c int, kase *c06Case, replay bool) {
 			e.Stats.Count("inflation-period-advanced")
 		}
 		_ = rank
-		rec.blkTerm = App("mkBlk", Z(TimeNs(r.now)), App("Inflation.mkOracle", Z(pre.bonded), "None"), L(txTerms), L(govTerms))
+		// the Turnstile deployed by csr's BeginBlock in this block (oracle: its address)
+		fresh := "0"
+		if pre.ts == nil && r.obs.ts != nil {
+			fresh = c06AddrZ(*r.obs.ts)
+			w.turnstile = *r.obs.ts
+			w.contracts = append(w.contracts, *r.obs.ts)
+			e.Stats.Count("turnstile-deployed-by-begin-block")
+		}
+		rec.blkTerm = App("mkBlk", Z(TimeNs(r.now)), App("Inflation.mkOracle", Z(pre.bonded), "None"), fresh, L(txTerms), L(govTerms))
 		rec.postTerm = c06ObsTerm(w, r.obs)
 		r.recs = append(r.recs, rec)
 		e.Stats.Count("blocks")
 	}
 	e.Stats.Distribution["restarts"] += RB.restarts
+	if E != nil {
+		e.Stats.Distribution["restarts"] += E.restarts
+	}
 	e.Stats.Distribution["reads"] += C.reads
 	// replica D: a second quiet node, run afterwards in a fresh application on the same requests
 	D, _ := c06Start("D", keys, kase.Gen)
@@ -793,8 +892,8 @@ func c06RunCase(e *Env, c int, kase *c06Case, replay bool) {
 			}
 			continue
 		}
-		r.recs[i-1].hash[3] = fmt.Sprintf("%x", res.AppHash)
-		r.recs[i-1].results[3] = c06ResultKeys(res)
+		r.recs[i-1].hash = append(r.recs[i-1].hash, fmt.Sprintf("%x", res.AppHash))
+		r.recs[i-1].results = append(r.recs[i-1].results, c06ResultKeys(res))
 	}
 	if len(r.recs) > 0 {
 		last := &r.recs[len(r.recs)-1]
@@ -804,7 +903,7 @@ func c06RunCase(e *Env, c int, kase *c06Case, replay bool) {
 	var bterms []string
 	for _, rec := range r.recs {
 		var hs, exps, rs []string
-		for i := 0; i < 4; i++ {
+		for i := range rec.hash {
 			hs = append(hs, Zi(r.intern.idx("h:"+rec.hash[i])))
 			var one []string
 			for _, k := range rec.results[i] {
@@ -837,7 +936,7 @@ func c06RunCase(e *Env, c int, kase *c06Case, replay bool) {
 
 func c06Run(e *Env) {
 	e.Header("From Coq Require Import ZArith List Bool.\nFrom Canto Require Import Model.Epochs Model.Coinswap Model.Chain Check.Common Check.CoinswapCheck Check.ChainCheck.\nFrom Canto Require Model.Inflation Model.Csr Model.Authority.\nImport ListNotations.\nOpen Scope Z_scope.\n")
-	e.Stats.Rule = "case = generated genesis (coinswap params, user funds, inflation on/off, epochs per period 1..30, staking/community split, optional hour epoch, csr share) on a chain with a genuine bonded genesis validator + a history of 14..28 blocks (quick) whose times step by seconds / hours / exactly-at, 1ns before, 1ns after an epoch end / days / weeks, each with 0..6 signed transactions: coinswap swaps and liquidity, bank sends, ConvertCoin/ConvertERC20, Ethereum transactions (ERC20 transfer to the erc20 module = erc20 hook, contract creation that registers with the Turnstile, calls of registered contracts = csr fee split, register through the CSR test contract), governance proposals (submit, vote, execution in EndBlocker) updating coinswap/inflation/csr/erc20 params, user-signed MsgUpdateParams, wrong-sequence and garbage bytes; the SAME bytes are executed through FinalizeBlock+Commit on replica A (plain), B (NewCanto on the same DB + LoadLatestVersion after every block), C (gRPC queries of every Canto module incl. historical heights and proofs, eth_call/estimateGas, CheckTx new/recheck of valid, corrupted and garbage transactions, Simulate, Prepare/ProcessProposal before every block) and D (fresh application afterwards); AppHash, result (code, codespace, data, gas) and exported genesis compared at every height; the projection (read on C; A and D see nothing but blocks) compared with the node model; non-trivial = at least one accepted transaction or epoch tick; distinct by hash of accepted kinds and ticks"
+	e.Stats.Rule = "case = generated genesis (coinswap params, user funds, inflation on/off, epochs per period 1..30, staking/community split, optional hour epoch, csr share; in a third of the cases CSR is DISABLED in genesis with no prepared Turnstile: a governance proposal enables it and csr's own BeginBlock deploys the Turnstile inside a block) on a chain with a genuine bonded genesis validator + a history of 14..28 blocks (quick) whose times step by seconds / hours / exactly-at, 1ns before, 1ns after an epoch end / days / weeks, each with 0..6 signed transactions: coinswap swaps and liquidity, bank sends, ConvertCoin/ConvertERC20, Ethereum transactions (ERC20 transfer to the erc20 module = erc20 hook, contract creation that registers with the Turnstile, calls of registered contracts = csr fee split, register through the CSR test contract), governance proposals (submit, vote, execution in EndBlocker) updating coinswap/inflation/csr/erc20 params, govshuttle lending-market proposals (the first deploys the ProposalStore contract in the EndBlocker) and erc20 RegisterCoin proposals (contract deployment in the EndBlocker), user-signed MsgUpdateParams, wrong-sequence and garbage bytes; the SAME bytes are executed through FinalizeBlock+Commit on replica A (plain), B (NewCanto on the same DB + LoadLatestVersion after every block), C (gRPC queries of every Canto module incl. historical heights and proofs, eth_call/estimateGas, CheckTx new/recheck of valid, corrupted and garbage transactions, Simulate, Prepare/ProcessProposal before every block) D (fresh application afterwards) and, in half of the cases, E (restarted from its database exactly ONCE at a random boundary); AppHash, result (code, codespace, data, gas) and exported genesis compared at every height; the projection (read on C; A and D see nothing but blocks) compared with the node model; non-trivial = at least one accepted transaction or epoch tick; distinct by hash of accepted kinds and ticks"
 	e.ShardSize = 1
 	if e.Replay == nil {
 		c06StaticScan(e)
